@@ -16,6 +16,7 @@ Ok(c) ==
   /\ c.pwd_after_cdup = c.parent
   /\ Cardinality({k \in 1..Len(c.listed) : c.listed[k] = c.name}) = 1      \* listed once, under exactly that name
   /\ c.stat_type = "dir" /\ c.exists
+  /\ c.file_stat_type = "file" /\ c.file_stat_size = Len(c.payload) /\ c.file_is_file     \* a stat of the file is about the file
   /\ c.file_listed = <<c.fname>>                         \* the uploaded file is the only entry, under its name
   /\ c.got = c.payload /\ c.got_after_append = c.payload \o c.payload2
   /\ c.renamed_listed = <<c.gname>> /\ c.got_renamed = c.payload \o c.payload2
